@@ -486,6 +486,14 @@ func (e *Env) eval(x ast.Expr) Val {
 		panic(specErr("cannot slice %s", b.T))
 	case *ast.CallExpr:
 		return e.evalCall(t)
+	case *ast.TypeAssertExpr:
+		// x.(T): the value of interface x viewed as T (no check; combine with typeis when needed)
+		v := e.eval(t.X)
+		typ := c.eng.resolveTypeExpr(e.pkg, t.Type)
+		if _, ok := v.T.Underlying().(*types.Interface); !ok {
+			panic(specErr("type assertion on non-interface %s", v.T))
+		}
+		return c.unbox(v, typ)
 	case *ast.CompositeLit:
 		typ := c.eng.resolveTypeExpr(e.pkg, t.Type)
 		st, ok := typ.Underlying().(*types.Struct)
@@ -692,6 +700,15 @@ func (e *Env) evalCall(t *ast.CallExpr) Val {
 				hi := e.eval(t.Args[2]).term()
 				rng := And(Le(lo, bv), Lt(bv, hi))
 				b := env.evalBool(t.Args[3])
+				// re-index over absolute array positions when every array access is at OFF+k:
+				// the quantifier then has a plain select pattern (robust E-matching)
+				if off := commonIndexOffset(b, bv.Op); off != nil {
+					c.nfresh++
+					av := Var(fmt.Sprintf("%s!a%d", name, c.nfresh), SInt)
+					b = reindex(b, bv.Op, off, av)
+					rng = And(Le(Add(lo, off), av), Lt(av, Add(hi, off)))
+					bv = av
+				}
 				if id.Name == "forall" {
 					body = Forall([]*Term{bv}, Imp(rng, b))
 				} else {
@@ -1024,4 +1041,85 @@ func (c *FnCtx) mapLen(st *State, m Val) *Term {
 	c.decls.Fun("maplen_"+ks, []string{ArrS(ks, SBool)}, SInt)
 	has := c.get(st, mapFam(mt, "has"), ArrS(SInt, ArrS(ks, SBool)))
 	return App("maplen_"+ks, SInt, Select(has, m.L[0]))
+}
+
+// commonIndexOffset inspects the index arguments of select terms mentioning the bound variable k.
+// If they all have the shape (+ OFF k) for one k-free OFF it returns OFF, otherwise nil.
+func commonIndexOffset(t *Term, k string) *Term {
+	var off *Term
+	ok := true
+	found := false
+	var walk func(x *Term)
+	walk = func(x *Term) {
+		if !ok {
+			return
+		}
+		if x.Op == "select" && len(x.Args) == 2 && mentionsAny(x.Args[1], []string{k}) {
+			idx := x.Args[1]
+			var o *Term
+			if idx.Op == "+" && len(idx.Args) == 2 {
+				if idx.Args[1].Op == k && len(idx.Args[1].Args) == 0 && !mentionsAny(idx.Args[0], []string{k}) {
+					o = idx.Args[0]
+				} else if idx.Args[0].Op == k && len(idx.Args[0].Args) == 0 && !mentionsAny(idx.Args[1], []string{k}) {
+					o = idx.Args[1]
+				}
+			}
+			if o == nil {
+				ok = false
+				return
+			}
+			if off == nil {
+				off = o
+			} else if off.String() != o.String() {
+				ok = false
+				return
+			}
+			found = true
+			walk(x.Args[0])
+			return
+		}
+		for _, a := range x.Args {
+			walk(a)
+		}
+	}
+	walk(t)
+	if !ok || !found {
+		return nil
+	}
+	return off
+}
+
+// reindex replaces (+ off k) by a and every other occurrence of k by (- a off).
+func reindex(t *Term, k string, off *Term, a *Term) *Term {
+	offS := off.String()
+	var rec func(x *Term) *Term
+	rec = func(x *Term) *Term {
+		if len(x.Args) == 0 && x.Bound == nil {
+			if x.Op == k {
+				return Sub(a, off)
+			}
+			return x
+		}
+		if x.Op == "+" && len(x.Args) == 2 {
+			if x.Args[1].Op == k && len(x.Args[1].Args) == 0 && x.Args[0].String() == offS {
+				return a
+			}
+			if x.Args[0].Op == k && len(x.Args[0].Args) == 0 && x.Args[1].String() == offS {
+				return a
+			}
+		}
+		n := &Term{Op: x.Op, S: x.S, Bound: x.Bound}
+		for _, y := range x.Args {
+			n.Args = append(n.Args, rec(y))
+		}
+		for _, p := range x.Pats {
+			var np []*Term
+			for _, y := range p {
+				np = append(np, rec(y))
+			}
+			n.Pats = append(n.Pats, np)
+		}
+		return n
+	}
+	return rec(t)
 }
